@@ -36,31 +36,20 @@ pub fn normalise_msg(msg: &str) -> String {
     let mut out = String::new();
     let mut in_digits = false;
     let first_line = msg.lines().next().unwrap_or("");
-    for c in first_line.chars().take(160) {
+    for c in first_line.chars().take(200) {
         if c.is_ascii_digit() {
             if !in_digits {
                 out.push('N');
             }
             in_digits = true;
+        } else if c == '`' {
+            in_digits = false;
         } else {
             in_digits = false;
             out.push(c);
         }
     }
-    // strip quoted payloads
-    let mut res = String::new();
-    let mut quote = false;
-    for c in out.chars() {
-        if c == '"' || c == '`' {
-            quote = !quote;
-            res.push('"');
-            continue;
-        }
-        if !quote {
-            res.push(c);
-        }
-    }
-    res.chars().take(100).collect()
+    out.chars().take(110).collect()
 }
 
 static PANICS: Mutex<Vec<PanicRec>> = Mutex::new(Vec::new());
